@@ -1177,6 +1177,9 @@ func TestVerif_C13(t *testing.T) {
 			c.Violation("grat:frame-for-another-address", fmt.Sprintf("%d broadcast frame(s) written during a gratuitous call name another address", n), c13Detail(ops, nil))
 		}
 		clean := c13Judge(c, ops)
+		if c.Idx%4 == 0 {
+			c13InflightGratuitous(c)
+		}
 
 		// evidence
 		var key strings.Builder
@@ -1242,4 +1245,69 @@ func c13LoadReplay() ([]c13Op, bool) {
 		return nil, false
 	}
 	return f.Detail.History, true
+}
+
+// c13InflightGratuitous is a directed interleaving: a gratuitous round is stopped inside its first frame
+// write (it has passed the "do we still hold the address" check), then the last holder is withdrawn.
+// "After the last such Service is withdrawn it ... stops sending unsolicited announcements": no frame
+// write may start after DeleteBalancer returned. (On the unchanged tree DeleteBalancer cannot return
+// before the round is over, because the round holds the announcer's read lock.)
+func c13InflightGratuitous(c *vfCase) {
+	e, err := c13NewExec()
+	if err != nil {
+		return
+	}
+	ip := c13IPA
+	if c.Idx%8 == 0 {
+		ip = c13IPB
+	}
+	adv := e.adv(ip, c13All, false)
+	e.v.A.SetBalancer("default/inflight", adv)
+	e.v.DrainSpam()
+	var writes, late atomic.Int64
+	var delReturned atomic.Bool
+	gate := make(chan struct{})
+	entered := make(chan struct{}, 16)
+	hook := func() {
+		if delReturned.Load() {
+			late.Add(1)
+		}
+		if writes.Add(1) == 1 {
+			entered <- struct{}{}
+			<-gate
+		}
+	}
+	for i := 0; i < 2; i++ {
+		e.conns[i].SetWriteHook(hook)
+	}
+	gratDone, delDone := make(chan struct{}), make(chan struct{})
+	go func() { defer close(gratDone); e.v.Gratuitous(adv) }()
+	select {
+	case <-entered:
+	case <-gratDone:
+		close(gate)
+		c.Count("inflight-gratuitous-probes-without-frame")
+		return
+	}
+	go func() {
+		defer close(delDone)
+		e.v.A.DeleteBalancer("default/inflight")
+		delReturned.Store(true)
+	}()
+	for y := 0; y < 3000 && !delReturned.Load(); y++ {
+		runtime.Gosched()
+	}
+	returnedEarly := delReturned.Load()
+	close(gate)
+	<-gratDone
+	<-delDone
+	for i := 0; i < 2; i++ {
+		e.conns[i].SetWriteHook(nil)
+	}
+	c.Eval()
+	c.Count("inflight-gratuitous-probes")
+	if n := late.Load(); n > 0 {
+		c.Violation("grat:frame-written-after-withdraw-returned", fmt.Sprintf("%d of %d gratuitous frame write(s) for %s started after DeleteBalancer of the last holder had returned (DeleteBalancer returned while the round was in flight: %v)",
+			n, writes.Load(), c13IPStr[ip], returnedEarly), nil)
+	}
 }
